@@ -212,7 +212,11 @@ def run_suite(suite, prop, cases, driver_ok, stats, known, search_only=False):
                 results.append(r)
         model = None
         if driver_ok and not search_only:
-            mcases = [suite.model_case(c) if hasattr(suite, "model_case") else c for c in cases]
+            if hasattr(suite, "model_from_result"):
+                # history-based correspondence: the model replays the event history of the real execution
+                mcases = [suite.model_from_result(c, r) for c, r in zip(cases, results)]
+            else:
+                mcases = [suite.model_case(c) if hasattr(suite, "model_case") else c for c in cases]
             try:
                 model = common.run_driver(mcases)
             except Exception as e:
@@ -241,7 +245,7 @@ def run_suite(suite, prop, cases, driver_ok, stats, known, search_only=False):
                     stats["driver_errors"].append(f"{c.get('op')}: {model[i]['driver_error']}")
                     continue
                 stats["compared"] += 1
-                if canon(model[i]) != canon(suite.view(r)):
+                if (not suite.agree(model[i], r)) if hasattr(suite, 'agree') else (canon(model[i]) != canon(suite.view(r))):
                     disagreements.append((c, r, model[i]))
     finally:
         suite.teardown()
@@ -478,16 +482,21 @@ def _impl1(suite, case):
         suite.teardown()
 
 
-def _model1(suite, case):
+def _model1(suite, case, result=None):
     try:
-        mc = suite.model_case(case) if hasattr(suite, "model_case") else case
+        if hasattr(suite, "model_from_result"):
+            mc = suite.model_from_result(case, result if result is not None else _impl1(suite, case))
+        else:
+            mc = suite.model_case(case) if hasattr(suite, "model_case") else case
         return common.run_driver([mc])[0]
     except Exception as e:
         return {"driver_error": str(e)}
 
 
 def _disagrees(suite, case):
-    return canon(suite.view(_impl1(suite, case))) != canon(_model1(suite, case))
+    r = _impl1(suite, case)
+    m = _model1(suite, case, r)
+    return (not suite.agree(m, r)) if hasattr(suite, 'agree') else canon(suite.view(r)) != canon(m)
 
 
 def do_replay(prop, P, path, known):
